@@ -10,6 +10,7 @@ namespace RichModel
 namespace Wrap
 open Text
 variable {σ : Type}
+variable {chars : Bool}
 
 theorem nsv_flatMap_congr {β : Type} (f g : Text σ → List (Char × β)) : ∀ (ls : List (Text σ)),
     (∀ l ∈ ls, nsv (f l) = nsv (g l)) → nsv (ls.flatMap f) = nsv (ls.flatMap g)
@@ -29,11 +30,11 @@ theorem wrapLine_fold_ink [BEq σ] (cw : Char → Nat) (hsp : cw ' ' = 1) (h2 : 
     (hplain : lines.map (·.plain) = pieces (divideLine cw P.plain w true) P.plain)
     (hinv : ∀ l ∈ lines, Inv l)
     (hfit : ∀ p ∈ pieces (divideLine cw P.plain w true) P.plain, cellLen cw (pyRstrip p) ≤ w) :
-    wrapLine WVariant.repaired cw A P w j Overflow.fold false
-        = .ok (lines.map (finishLine WVariant.repaired cw w j Overflow.fold)) ∧
-      nsv ((lines.map (finishLine WVariant.repaired cw w j Overflow.fold)).flatMap Text.view) = nsv P.view ∧
-      ∀ l ∈ lines.map (finishLine WVariant.repaired cw w j Overflow.fold), Inv l := by
-  have hl : ∀ l ∈ lines, SameInk l (finishLine WVariant.repaired cw w j Overflow.fold l) := by
+    wrapLine (WVariant.fixed chars) cw A P w j Overflow.fold false
+        = .ok (lines.map (finishLine (WVariant.fixed chars) cw w j Overflow.fold)) ∧
+      nsv ((lines.map (finishLine (WVariant.fixed chars) cw w j Overflow.fold)).flatMap Text.view) = nsv P.view ∧
+      ∀ l ∈ lines.map (finishLine (WVariant.fixed chars) cw w j Overflow.fold), Inv l := by
+  have hl : ∀ l ∈ lines, SameInk l (finishLine (WVariant.fixed chars) cw w j Overflow.fold l) := by
     intro l hl
     apply finishLine_fold_sameInk cw hsp h2 w j hj l (hinv l hl)
     apply hfit
